@@ -11,6 +11,7 @@ Definition dec_mul_native : option Z := Some 1.
 Definition dec_mul_validates : option Z := Some 0.
 Definition dec_sub_native : option Z := Some 1.
 Definition dec_sub_validates : option Z := Some 0.
+Definition decimal_to_decimal_validates : option Z := Some 1.
 Definition div_native : option Z := Some 1.
 Definition int16_dec_precision : option Z := Some 5.
 Definition int32_dec_precision : option Z := Some 10.
